@@ -521,6 +521,13 @@ def generate(repo):
     # _feed_extended
     fn = _find_fn(ccls.body, "_feed_extended")
     body = _strip_doc(fn.body)
+    # the tail `if self.combine_stderr: ... else: ...` may sit inside
+    # `self.lock.acquire(); try: ... finally: self.lock.release()` (C21 repair)
+    if (len(body) == 5 and ast.unparse(body[3]) == "self.lock.acquire()"
+            and isinstance(body[4], ast.Try) and not body[4].handlers and not body[4].orelse
+            and [ast.unparse(x) for x in body[4].finalbody] == ["self.lock.release()"]
+            and len(body[4].body) == 1):
+        body = body[:3] + [body[4].body[0]]
     if not (len(body) == 4 and ast.unparse(body[0]) == "code = m.get_int()"
             and ast.unparse(body[1]) == "s = m.get_binary()"
             and isinstance(body[2], ast.If) and not body[2].orelse
